@@ -138,7 +138,12 @@ func VerifC12Cbor() {
 	arr := c12Valid(kind)
 	full := len(arr)
 	p := -1
-	switch verifChoice("mode", 4) {
+	nested := kind == KindTransaction || kind == KindRewards
+	modes := 4
+	if nested {
+		modes = 5
+	}
+	switch verifChoice("mode", modes) {
 	case 0: // decoder error
 		c12DecFail = true
 	case 1: // the well-formed array itself and any shorter length
@@ -148,7 +153,21 @@ func VerifC12Cbor() {
 	case 3: // one position holds a value of any type
 		p = verifChoice("pos", full)
 		depth := verifParam("depth", 2)
-		arr[p] = c12Any(depth, 2)
+		arr[p] = c12Any(depth, verifParam("maxlist", 2))
+	case 4: // Transaction / Rewards: one position of a NESTED data frame holds a value of any type, or the frame is cut
+		fpos := []int{1, 2}
+		if kind == KindRewards {
+			fpos = []int{2}
+		}
+		fp := fpos[verifChoice("frame", len(fpos))]
+		frame := arr[fp].([]interface{})
+		if q := verifChoice("fpos", len(frame)+1); q == len(frame) {
+			arr[fp] = frame[:verifChoice("fcut", len(frame))]
+		} else {
+			frame[q] = c12Any(1, 1)
+			// link list of the nested frame (element 5): same known defect as at top level
+			verifKnownFinding("C12-cbor-empty-link", q == 5 && c12EmptyLink(frame[q]))
+		}
 	}
 	c12Arr = arr
 	if p >= 0 {
